@@ -229,7 +229,7 @@ def build(unit_name, outdir, global_rw=()):
             cur.d['rw'].append(parse_rw(arg) + ({'rw': True, 'rw?': False, 'rw!': 'critical'}[key],))
         elif key == 'builtin' and arg == 'map_or_else':
             cur.d['rw'].append(('@map_or_else', None, False))
-        elif key == 'builtin' and arg in ('optmap', 'resmap', 'optmap_all'):
+        elif key == 'builtin' and arg in ('optmap', 'resmap', 'optmap_all', 'or_else_all'):
             cur.d['rw'].append(('@' + arg, None, True))
         elif key == 'builtin':
             if arg not in BUILTINS:
@@ -499,6 +499,12 @@ def apply_rw(text, rws, where, lost=None):
             text, n = desugar_map_or_else(text)
             text, n2 = desugar_option_map(text)
             n_applied += n + n2
+            continue
+        if pat == '@or_else_all':      # only bool::then / or_else / unwrap_or_else with parameterless closures
+            text, n = desugar_option_or_else(text, need_self=False)
+            if n == 0 and required:
+                raise LostAnchor('%s: builtin %s matches nothing' % (where, pat))
+            n_applied += n
             continue
         if pat in ('@optmap', '@resmap', '@optmap_all'):
             n0 = 0
